@@ -65,11 +65,12 @@ theorem decodeScalar_np (O : Oracle) (k : ScalarKind) (t : GoTok) : NP (decodeSc
   intro w
   cases k <;> cases t <;> simp only [decodeScalar] <;> (repeat' split) <;> simp
 
-theorem createField_np (p : PropDef) (st : PS) : NP (createField p st) := by
-  intro w; unfold createField; split <;> simp
+theorem createField_np (props : List PropDef) (p : PropDef) (st : PS) :
+    NP (createField props p st) := by
+  intro w; unfold createField; (repeat' split) <;> simp
 
-theorem oneofPost_np (ops : List PropDef) (found : List Bytes) (ct : Option Bytes) :
-    NP (oneofPost ops found ct) := by
+theorem oneofPost_np (ops : List PropDef) (found : List Bytes) (ct : Option Bytes) (m : Fields) :
+    NP (oneofPost ops found ct m) := by
   intro w; unfold oneofPost; (repeat' split) <;> simp
 
 theorem decScalarProp_np (c : Cfg) (props : List PropDef) (p : PropDef) (k : ScalarKind) (t : PTree)
@@ -79,7 +80,7 @@ theorem decScalarProp_np (c : Cfg) (props : List PropDef) (p : PropDef) (k : Sca
   · exact NP_err _
   · exact NP_err _
   · exact NP_ok _
-  · apply NP_bind _ _ (createField_np p st)
+  · apply NP_bind _ _ (createField_np _ p st)
     intro st1
     split
     · exact NP_err _
@@ -94,7 +95,7 @@ theorem decEnumProp_np (c : Cfg) (props : List PropDef) (p : PropDef) (ref : Str
   · exact NP_err _
   · exact NP_err _
   · exact NP_ok _
-  · apply NP_bind _ _ (createField_np p st)
+  · apply NP_bind _ _ (createField_np _ p st)
     intro st1
     split
     · exact NP_err _
@@ -120,7 +121,7 @@ theorem finishOneofProp_np (ops props : List PropDef) (p : PropDef) (st1 : PS)
   split
   split
   · exact NP_err _
-  · apply NP_bind _ _ (oneofPost_np _ _ _)
+  · apply NP_bind _ _ (oneofPost_np _ _ _ _)
     intro tp
     np_leaves
 
@@ -156,7 +157,7 @@ theorem finishOneof_np (ops : List PropDef) (r : Outcome (PS × List Bytes × Op
     · split
       · split <;> simp
       · simp
-      · rename_i w' heq; exact absurd heq (oneofPost_np _ _ _ w')
+      · rename_i w' heq; exact absurd heq (oneofPost_np _ _ _ _ w')
   · simp
   · rename_i w'; exact absurd rfl (h w')
 
@@ -223,7 +224,7 @@ theorem decProp_np (c : Cfg) (hc : c.env.itemsOk = true) (props : List PropDef) 
     split
     · exact NP_ok _
     · rename_i ms
-      apply NP_bind _ _ (createField_np p st)
+      apply NP_bind _ _ (createField_np _ p st)
       intro st1
       split
       · exact NP_err _
@@ -237,7 +238,7 @@ theorem decProp_np (c : Cfg) (hc : c.env.itemsOk = true) (props : List PropDef) 
     split
     · exact NP_ok _
     · rename_i ms
-      apply NP_bind _ _ (createField_np p st)
+      apply NP_bind _ _ (createField_np _ p st)
       intro st1
       split
       · rename_i ops hfind
@@ -249,7 +250,7 @@ theorem decProp_np (c : Cfg) (hc : c.env.itemsOk = true) (props : List PropDef) 
     split
     · exact NP_ok _
     · rename_i ms
-      apply NP_bind _ _ (createField_np p st)
+      apply NP_bind _ _ (createField_np _ p st)
       intro st1
       split
       · exact NP_err _
@@ -261,7 +262,7 @@ theorem decProp_np (c : Cfg) (hc : c.env.itemsOk = true) (props : List PropDef) 
     split
     · exact NP_ok _
     · rename_i xs
-      apply NP_bind _ _ (createField_np p st)
+      apply NP_bind _ _ (createField_np _ p st)
       intro st1
       split
       · exact NP_err _
@@ -274,7 +275,7 @@ theorem decProp_np (c : Cfg) (hc : c.env.itemsOk = true) (props : List PropDef) 
     split
     · exact NP_ok _
     · rename_i ms
-      apply NP_bind _ _ (createField_np p st)
+      apply NP_bind _ _ (createField_np _ p st)
       intro st1
       split
       · exact NP_err _
@@ -501,20 +502,23 @@ end J5V.Codec
 namespace J5V.Codec
 open J5V.Go J5V.Json
 
-theorem qCreate_np (p : PropDef) (hp : fieldOk p.field = true) (trail : List Bytes) (st : QS) :
-    NP (qCreate p trail st) := by
+theorem qCreate_np (props : List PropDef) (p : PropDef) (hp : fieldOk p.field = true)
+    (loc : List Nat) (trail : List Bytes) (st : QS) :
+    NP (qCreate props p loc trail st) := by
   intro w
   unfold qCreate
   split
   · simp
-  · split <;> simp_all [fieldOk]
+  · split
+    · simp
+    · split <;> simp_all [fieldOk]
 
 theorem qEnter_np (props : List PropDef) (p : PropDef) (hp : fieldOk p.field = true) (loc : List Nat)
     (trail : List Bytes) (st : QS) : NP (qEnter props p loc trail st) := by
   unfold qEnter
   split
   · exact NP_ok _
-  · apply NP_bind _ _ (qCreate_np p hp trail st)
+  · apply NP_bind _ _ (qCreate_np props p hp loc trail st)
     intro s
     np_leaves
 
@@ -638,7 +642,7 @@ theorem queryLeaf_np (c : Cfg) (hc : c.env.itemsOk = true) (props : List PropDef
               · split
                 · split <;> simp
                 · simp
-                · rename_i w' heq; exact absurd heq (oneofPost_np _ _ _ w')
+                · rename_i w' heq; exact absurd heq (oneofPost_np _ _ _ _ w')
             · simp
             · rename_i w' heq
               exact absurd heq (decOneofMembers_np c hc ops (find_oneof_ok c hc _ ops hfind) _ _ _ _ w')
@@ -663,7 +667,7 @@ theorem queryKey_np (c : Cfg) (hc : c.env.itemsOk = true) (parts : List Bytes) (
         split
         · exact queryLeaf_np c hc props p loc trail values hv _ w
         · simp
-        · rename_i w' heq; exact absurd heq (qCreate_np p hpf trail st w')
+        · rename_i w' heq; exact absurd heq (qCreate_np _ p hpf _ trail st w')
     | cons r2 rest2 =>
       unfold queryKey
       intro w
